@@ -92,9 +92,20 @@ def _cs_sizes(draw, W, n, fam):
 @st.composite
 def instances(draw, tier="quick"):
     wmax, nmax = (20, 5) if tier == "thorough" else (16, 4)
-    family = draw(st.sampled_from(["uniform", "uniform", "frac", "frac", "frac", "dup", "tiny", "edge"]))
+    family = draw(st.sampled_from(["uniform", "uniform", "frac", "frac", "frac", "dup", "tiny", "common-divisor", "edge"]))
     W = draw(st.integers(10 if family == "tiny" else 4, wmax))
-    if family == "edge":
+    if family == "common-divisor":
+        # every size a multiple of g, roll width not: code that rescales the knapsack by gcd(sizes) must round the
+        # capacity down (seeded change C17-r2-2 rounded to nearest: W=15, sizes [4,6], demands [2,1])
+        g = draw(st.integers(2, 6))
+        W = g * draw(st.integers(1, wmax // g)) + draw(st.integers(1, g - 1))
+        W = W - g if W > wmax else max(W, g + 1)
+        n = draw(st.integers(2, 3))
+        sizes = [g * draw(st.integers(1, W // g)) for _ in range(n)]
+        demands = [draw(st.integers(0, 4)) for _ in range(n)]
+        if not any(demands):
+            demands[draw(st.integers(0, n - 1))] = draw(st.integers(1, 2))
+    elif family == "edge":
         n = draw(st.integers(0, 3))
         sizes = [draw(st.integers(1, W)) for _ in range(n)]
         demands = [0] * n
@@ -408,6 +419,22 @@ def run_bp_custom(desc, ctx):
     _run_custom(desc, ctx, "bp")
 
 
+# ----------------------------------------------------------------------------- exhaustive small scope
+def small_scope(tier, wmax_quick=16):
+    """Every two-piece instance: W = 4..16 (thorough ..20), 1 <= s1 <= s2 <= W, demands 1..2 (thorough 0..4, not both 0).
+
+    Same description format as `instances`, judged by the same run functions (3 224 cases quick, 36 720 thorough)."""
+    thorough = tier == "thorough"
+    dem = range(0, 5) if thorough else range(1, 3)
+    for W in range(4, (20 if thorough else wmax_quick) + 1):
+        for s1 in range(1, W + 1):
+            for s2 in range(s1, W + 1):
+                for d1 in dem:
+                    for d2 in dem:
+                        if d1 or d2:
+                            yield {"family": "exhaustive", "W": W, "sizes": [s1, s2], "demands": [d1, d2], "num": "int", "seq": "list", "cg_max_iter": None}
+
+
 # ----------------------------------------------------------------------------- known finding (DESIGN §5 row 20)
 def bp_after_branching(desc, v):
     """solve_bp result produced after branching (Result.iterations > 0).  Root-only bp results and every
@@ -421,7 +448,9 @@ KNOWN_CLASSES = {"bp-after-branching": bp_after_branching}
 
 SUBS = [
     Sub("cg_cutting_stock", run_cg, strategy=lambda tier: instances(tier), quick=450, thorough=3000, workers_quick=4, crash="inconclusive"),
-    Sub("bp_cutting_stock", run_bp, strategy=lambda tier: instances(tier), quick=250, thorough=800, workers_quick=6, crash="inconclusive"),
+    Sub("bp_cutting_stock", run_bp, strategy=lambda tier: instances(tier), quick=200, thorough=800, workers_quick=6, crash="inconclusive"),
+    Sub("cg_exhaustive_2pieces", run_cg, enumerate=lambda tier: small_scope(tier), workers_quick=8, crash="inconclusive"),
+    Sub("bp_exhaustive_2pieces", run_bp, enumerate=lambda tier: small_scope(tier, wmax_quick=12), workers_quick=8, crash="inconclusive"),
     Sub("cg_custom_pricing", run_cg_custom, strategy=lambda tier: pools(tier), quick=300, thorough=2000, workers_quick=2, crash="inconclusive"),
     Sub("bp_custom_pricing", run_bp_custom, strategy=lambda tier: pools(tier), quick=250, thorough=1200, workers_quick=4, crash="inconclusive"),
 ]
